@@ -1,6 +1,10 @@
 package evmsim
 
 import (
+	"go.uber.org/zap/zapcore"
+	"strings"
+	"math/rand"
+	"io"
 	"bytes"
 	"context"
 	"fmt"
@@ -34,6 +38,11 @@ type Harness struct {
 	Arrivals []Arrival
 	inReobs  atomic.Bool
 	curReobs ethcommon.Hash // the transaction of the re-observation request in flight
+	logMu        sync.Mutex
+	logRng       *rand.Rand
+	logDelayProb float64
+	logDelayMax  time.Duration
+	logDelayOnly string
 	ReobsN   map[ethcommon.Hash]int
 	cancel   context.CancelFunc
 	RunExits int32
@@ -43,6 +52,7 @@ type Harness struct {
 // finalized head, no extra confirmations; mode "bsc": latest head + consistency-level confirmations.
 func Start(sim *Sim, mode string, pollMs uint) *Harness {
 	h := &Harness{Sim: sim, ObsvReqC: make(chan *gossipv1.ObservationRequest), msgC: make(chan *common.MessagePublication), ReobsN: map[ethcommon.Hash]int{}}
+	h.logRng = rand.New(rand.NewSource(int64(pollMs) + 77))
 	h.Chain, h.WaitConf = vaa.ChainIDEthereum, false
 	if mode == "bsc" {
 		h.Chain, h.WaitConf = vaa.ChainIDBSC, true
@@ -73,7 +83,23 @@ func Start(sim *Sim, mode string, pollMs uint) *Harness {
 			}
 		}
 	}()
-	logger := zap.NewNop()
+	// The watcher's log statements are used as delay points: output is discarded, but a hook may sleep for a moment when a
+	// line is written (SetLogDelay). Log lines sit between critical sections, which is where a pause changes what can
+	// interleave with what - nothing in the watcher is modified.
+	core := zapcore.NewCore(zapcore.NewJSONEncoder(zap.NewProductionEncoderConfig()), zapcore.AddSync(io.Discard), zapcore.DebugLevel)
+	logger := zap.New(core, zap.Hooks(func(e zapcore.Entry) error {
+		h.logMu.Lock()
+		p, max, only := h.logDelayProb, h.logDelayMax, h.logDelayOnly
+		var d time.Duration
+		if p > 0 && (only == "" || strings.Contains(e.Message, only)) && h.logRng.Float64() < p {
+			d = time.Duration(h.logRng.Int63n(int64(max))) + time.Millisecond
+		}
+		h.logMu.Unlock()
+		if d > 0 {
+			time.Sleep(d)
+		}
+		return nil
+	}))
 	supervisor.New(ctx, logger, func(ctx context.Context) error {
 		if err := supervisor.Run(ctx, "ethwatch", func(ctx context.Context) error {
 			err := h.W.Run(ctx)
@@ -285,4 +311,12 @@ func (h *Harness) JudgeSafety(desc string, trace []string) []Finding {
 		}
 	}
 	return out
+}
+
+// SetLogDelay makes the watcher pause for up to max (probability p) whenever it writes a log line containing `only`
+// ("" = any line). p = 0 switches the pauses off.
+func (h *Harness) SetLogDelay(p float64, max time.Duration, only string) {
+	h.logMu.Lock()
+	h.logDelayProb, h.logDelayMax, h.logDelayOnly = p, max, only
+	h.logMu.Unlock()
 }
